@@ -560,6 +560,7 @@ def spow(base, expo):
     return NotImplemented
   c = cur()
   t = pow_fn()(bz, ez)
+  c.ghost.setdefault("pow_calls", []).append((SReal(bz), SReal(ez), getattr(c, "site", "")))
   # basic sign facts: positive base gives positive power; x**1 == x
   c.fact(z3.Implies(bz > 0, t > 0), "pow: x>0 => x**a > 0")
   c.fact(z3.Implies(ez == 1, t == bz), "pow: x**1 = x")
